@@ -13,6 +13,7 @@
 From Coq Require Import List Arith Bool.
 From AV Require Import Base.Util Spec.Lang Spec.FA Spec.PDA Model.PDA Model.Validate Proofs.Validate.
 From AV Require Import Model.Decide Model.Product Model.Build Model.DFAOps Model.Subset Proofs.DFAOps Proofs.Subset.
+From AV Require Import Spec.TM Model.MNTMSim Model.ValidateEmbed Proofs.ValidateMore.
 Import ListNotations.
 
 (* ---- the constructor accepts exactly the well-formed definitions ---- *)
@@ -70,6 +71,31 @@ Theorem C19_dpda_checker_is_C02s : forall m mode, mode <= 2 -> dpda_validate_raw
 Proof. exact dpda_validate_raw_agrees. Qed.
 Print Assumptions C19_dpda_checker_is_C02s.
 
+(* the hypotheses of the C03 / C17 theorems.  valid_dtm / valid_ntm / valid_mntm of Spec/TM.v live on records
+   without state / symbol sets; raw_of_dtm / raw_of_ntm / raw_of_mntm Q I T (Model/ValidateEmbed.v) put such a
+   machine in the raw shape the constructor checks, Q I T being the states, input symbols and tape symbols.
+   tm_sets_ok r = the constructor's rules about those sets (input symbols a proper subset of the tape symbols,
+   blank a tape symbol, rows / read symbols / result states / written symbols / directions known, initial
+   state known, with a row unless it is the only state, not final, final states known) - everything except
+   "no final state has a row", which is what valid_dtm / valid_ntm say.  MNTM: valid_mntm also demands at least
+   one alternative per entry, valid_tapes (C17) at least one tape - neither is checked by MNTM.validate - and
+   validate additionally checks one key component per tape (keys_len_ok), which neither predicate mentions. *)
+Theorem C19_valid_tm_agrees : forall Q I T,
+  (forall m, dtm_validate (raw_of_dtm Q I T m) = Ok tt <-> valid_dtm m = true /\ tm_sets_ok (raw_of_dtm Q I T m)) /\
+  (forall m, ntm_validate (raw_of_ntm Q I T m) = Ok tt <-> valid_ntm m = true /\ tm_sets_ok (raw_of_ntm Q I T m)) /\
+  (forall m, (mntm_validate (mt_n m) (raw_of_mntm Q I T m) = Ok tt /\ alts_nonempty m = true /\ 1 <= mt_n m) <->
+             (valid_mntm m = true /\ valid_tapes m = true /\ keys_len_ok m = true /\ tm_sets_ok (raw_of_mntm Q I T m))).
+Proof.
+  intros Q I T. split; [exact (valid_dtm_agrees Q I T)|]. split; [exact (valid_ntm_agrees Q I T)|exact (valid_mntm_agrees Q I T)].
+Qed.
+Print Assumptions C19_valid_tm_agrees.
+
+(* the embeddings commute with the Spec-level conversions used by C03's cross-model theorem *)
+Theorem C19_tm_embeddings_commute : forall Q I T m,
+  raw_of_ntm Q I T (ntm_of_dtm m) = raw_of_dtm Q I T m /\ raw_of_mntm Q I T (mntm_of_dtm m) = raw_of_dtm Q I T m.
+Proof. intros Q I T m. split; [exact (raw_of_ntm_of_dtm Q I T m)|exact (raw_of_mntm_of_dtm Q I T m)]. Qed.
+Print Assumptions C19_tm_embeddings_commute.
+
 (* ---- the exception raised is the documented one ---- *)
 (* whatever is raised is the documented exception of a rule that really is broken; a definition with a
    broken rule is rejected *)
@@ -91,9 +117,65 @@ Print Assumptions C19_error_kind_sound.
    broken), the constructor raises exactly k *)
 Theorem C19_single_rule_kind :
   (forall m k, dfa_broken m k -> (forall k', dfa_broken m k' -> k' = k) -> dfa_validate m = Err (Invalid k)) /\
-  (forall m k, nfa_broken m k -> (forall k', nfa_broken m k' -> k' = k) -> nfa_validate m = Err (Invalid k)).
-Proof. split; [exact dfa_single_rule_kind|exact nfa_single_rule_kind]. Qed.
+  (forall m k, nfa_broken m k -> (forall k', nfa_broken m k' -> k' = k) -> nfa_validate m = Err (Invalid k)) /\
+  (forall m k, gnfa_broken m k -> (forall k', gnfa_broken m k' -> k' = k) -> gnfa_validate m = Err (Invalid k)).
+Proof. split; [exact dfa_single_rule_kind|split; [exact nfa_single_rule_kind|exact gnfa_single_rule_kind]]. Qed.
 Print Assumptions C19_single_rule_kind.
+
+(* GNFA (structural rules of GNFA.validate; the validity of a label string is the input bit): the
+   rules are gnfa_broken's constructors - initial / final state not a state (1), a label that is
+   not a regular expression over the alphabet (10), the final state has outgoing transitions (1),
+   a row of another state does not cover states - {initial} (3: incomplete table), an end state
+   that is not a state (1), the initial state has no row (3).  Whatever is raised is the documented
+   exception of a rule that is broken; a definition with a broken rule is rejected; only
+   InvalidStateError, MissingStateError and InvalidRegexError are raised. *)
+Theorem C19_error_kind_sound_gnfa :
+  (forall m e, gnfa_validate m = Err e -> exists k, e = Invalid k /\ gnfa_broken m k) /\
+  (forall m k, gnfa_broken m k -> exists k', gnfa_validate m = Err (Invalid k') /\ gnfa_broken m k') /\
+  (forall m e, gnfa_validate m = Err e -> e = Invalid 1 \/ e = Invalid 3 \/ e = Invalid 10).
+Proof. split; [exact gnfa_validate_err_sound|split; [exact gnfa_broken_rejected|exact gnfa_kinds]]. Qed.
+Print Assumptions C19_error_kind_sound_gnfa.
+
+(* ---- the ORDER in which several broken rules are reported ---- *)
+(* [dfa_rules m] / [nfa_rules m] / [gnfa_rules m] (Proofs/ValidateMore.v) list the rules of the class as
+   (documented exception, proposition) in the order the code checks them - for a DFA: every state
+   has a row; then per row, in dict order: no symbol missing (complete DFA), the row's symbols are
+   input symbols, the end states are states; then the initial state; then the final states.
+   [first_broken rs k]: some rule of kind k does not hold and every rule in front of it holds.
+   The constructor raises exactly the exception of the first broken rule; it accepts iff every
+   rule holds; the reported rule is unique. *)
+Theorem C19_first_broken_rule_dfa : forall m,
+  (forall k, dfa_validate m = Err (Invalid k) <-> first_broken (dfa_rules m) k) /\
+  (dfa_validate m = Ok tt <-> Forall holds (dfa_rules m)) /\
+  (forall e, dfa_validate m = Err e -> exists k, e = Invalid k).
+Proof.
+  intro m. split; [exact (first_broken_rule_dfa m)|]. split; [exact (all_rules_dfa m)|].
+  intros e. exact (validate_only_invalid _ e).
+Qed.
+Print Assumptions C19_first_broken_rule_dfa.
+
+Theorem C19_first_broken_rule_nfa : forall m,
+  (forall k, nfa_validate m = Err (Invalid k) <-> first_broken (nfa_rules m) k) /\
+  (nfa_validate m = Ok tt <-> Forall holds (nfa_rules m)) /\
+  (forall e, nfa_validate m = Err e -> exists k, e = Invalid k).
+Proof.
+  intro m. split; [exact (first_broken_rule_nfa m)|]. split; [exact (all_rules_nfa m)|].
+  intros e. exact (validate_only_invalid _ e).
+Qed.
+Print Assumptions C19_first_broken_rule_nfa.
+
+Theorem C19_first_broken_rule_gnfa : forall m,
+  (forall k, gnfa_validate m = Err (Invalid k) <-> first_broken (gnfa_rules m) k) /\
+  (gnfa_validate m = Ok tt <-> Forall holds (gnfa_rules m)).
+Proof. intro m. split; [exact (first_broken_rule_gnfa m)|exact (all_rules_gnfa m)]. Qed.
+Print Assumptions C19_first_broken_rule_gnfa.
+
+(* "first broken" spelled out: the rule list splits into rules that hold, the reported rule, the rest *)
+Theorem C19_first_broken_meaning : forall rs k,
+  (first_broken rs k <-> exists pre P post, rs = pre ++ (k, P) :: post /\ Forall holds pre /\ ~ P) /\
+  (forall k', first_broken rs k -> first_broken rs k' -> k = k').
+Proof. intros rs k. split; [exact (first_broken_split rs k)|intro k'; exact (first_broken_functional rs k k')]. Qed.
+Print Assumptions C19_first_broken_meaning.
 
 (* the same for the pushdown and Turing-machine classes: invalid stack symbol, acceptance mode,
    nondeterministic DPDA, bad tape symbol, direction, tape count, final state with transitions, ... *)
@@ -227,3 +309,42 @@ Example C19_example_pda_tm :
    tm_validate (mkrtm [0;1] [0] [0;1] [(0,[([0],[(1,[(1,1)])])]);(1,[])] 0 1 [1]))
   = (Ok tt, Ok tt, Err (Invalid 31), Ok tt, Err (Invalid 30), Err (Invalid 4), Err (Invalid 6)).
 Proof. vm_compute. split; reflexivity. Qed.
+
+(* two broken rules of different kinds: the row of state 0 has a foreign symbol (InvalidSymbolError) and an
+   unknown end state (InvalidStateError); the symbol rule comes first in the code, and is the one reported *)
+Example C19_example_order :
+  let m := mkdfa [0;1] [0;1] [(0,[(0,7);(5,1)]);(1,[])] 0 [1] true in
+  dfa_broken m 1 /\ dfa_broken m 2 /\ first_broken (dfa_rules m) 2 /\ ~ first_broken (dfa_rules m) 1.
+Proof.
+  simpl. split; [|split; [|split]].
+  - apply (db_end _ 0 [(0,7);(5,1)] 0 7); simpl; auto. intros [H|[H|[]]]; discriminate.
+  - apply (db_sym _ 0 [(0,7);(5,1)] 5 1); simpl; auto. intros [H|[H|[]]]; discriminate.
+  - apply C19_first_broken_rule_dfa. vm_compute. reflexivity.
+  - intro H. apply C19_first_broken_rule_dfa in H. vm_compute in H. discriminate.
+Qed.
+
+(* GNFA: a complete three-state definition is accepted; each structural corruption gives its kind.
+   The last one has a transition INTO the initial state (1 -> 0): GNFA.validate does not check the
+   class docstring's "no transitions coming in" and accepts it (observed on the library: to_regex()
+   then raises KeyError) *)
+Example C19_example_gnfa :
+  let ok := mkgnfa [0;1;2] [(0,[(1,Some true);(2,None)]);(1,[(1,Some true);(2,Some true)])] 0 2 in
+  let final_with_row := mkgnfa [0;1;2] [(0,[(1,Some true);(2,None)]);(1,[(1,Some true);(2,Some true)]);(2,[(1,None)])] 0 2 in
+  let incomplete := mkgnfa [0;1;2] [(0,[(1,Some true);(2,None)]);(1,[(2,Some true)])] 0 2 in
+  let bad_label := mkgnfa [0;1;2] [(0,[(1,Some false);(2,None)]);(1,[(1,Some true);(2,Some true)])] 0 2 in
+  let bad_end := mkgnfa [0;1;2] [(0,[(1,Some true);(2,None);(7,None)]);(1,[(1,Some true);(2,Some true)])] 0 2 in
+  let no_initial_row := mkgnfa [0;1;2] [(1,[(1,Some true);(2,Some true)])] 0 2 in
+  let into_initial := mkgnfa [0;1;2] [(0,[(1,Some true);(2,None)]);(1,[(1,Some true);(2,Some true);(0,Some true)])] 0 2 in
+  map gnfa_validate [ok; final_with_row; incomplete; bad_label; bad_end; no_initial_row; into_initial]
+  = [Ok tt; Err (Invalid 1); Err (Invalid 3); Err (Invalid 10); Err (Invalid 1); Err (Invalid 3); Ok tt].
+Proof. vm_compute. reflexivity. Qed.
+
+(* C03's example machine (blank 0, symbol 1, final state 2) with Q = {0,1,2}, I = {1}, T = {0,1}: accepted by
+   the DTM constructor, hence valid_dtm; with the input symbols equal to the tape symbols it is rejected
+   although valid_dtm holds (a rule about the sets) *)
+Example C19_example_tm_embed :
+  let m := mkdtm [(0, [(1, (0, 1, DL)); (0, (1, 1, DR))]); (1, [(1, (1, 1, DR)); (0, (2, 0, DN))])] 0 0 [2] in
+  dtm_validate (raw_of_dtm [0;1;2] [1] [0;1] m) = Ok tt /\ valid_dtm m = true /\
+  dtm_validate (raw_of_dtm [0;1;2] [0;1] [0;1] m) = Err (Invalid 4) /\
+  mntm_validate 1 (raw_of_mntm [0;1;2] [1] [0;1] (mntm_of_dtm m)) = Ok tt.
+Proof. vm_compute. repeat split. Qed.
